@@ -387,23 +387,33 @@ private:
       //       and the seq-cst fence (3)
       XENIUM_THREAD_FENCE(std::memory_order_acquire);
 
+      // We have to adopt the orphans that belong to the new epoch _before_ we make the new epoch
+      // visible. Up to that point the orphan list can only contain nodes from previous incarnations
+      // of this epoch, which are safe to reclaim. But as soon as other threads can observe the new
+      // epoch, they can retire nodes in it and, e.g., when they terminate, abandon them to the very
+      // same orphan list.
+      auto& orphaned = orphans[new_epoch % number_epochs];
+      auto* nodes = orphaned.adopt();
+
       // (7) - this release-CAS synchronizes-with the acquire-load (5)
       bool success = global_epoch.compare_exchange_strong(
         curr_epoch, new_epoch, std::memory_order_release, std::memory_order_relaxed);
       if (XENIUM_LIKELY(success)) {
-        reclaim_orphans(new_epoch);
+        detail::delete_objects(nodes);
+      } else if (nodes != nullptr) {
+        // Some other thread has updated the epoch, so we cannot tell whether all the adopted nodes
+        // stem from previous incarnations -> give them back.
+        auto* last = nodes;
+        while (last->next != nullptr) {
+          last = last->next;
+        }
+        orphaned.add({nodes, last});
       }
     }
     return new_epoch;
   }
 
   void add_retired_node(detail::deletable_object* p) { retire_lists[local_epoch_idx].push(p); }
-
-  void reclaim_orphans(epoch_t epoch) {
-    auto idx = epoch % number_epochs;
-    auto* nodes = orphans[idx].adopt();
-    detail::delete_objects(nodes);
-  }
 
   unsigned critical_entries_since_update = 0;
   unsigned nested_critical_entries = 0;
